@@ -22,14 +22,28 @@ from ..lib import impl, tokens as T
 
 LEVEL = "fault_enumeration"
 
-LABELS = [
-    "a = 1\nEND",
-    "a = 1\nGROUP = g\n  b = 'x y'\nEND_GROUP\nEND",
-    "OBJECT = o\n  k = (1, 2, 3)\n  t = 2001-01-01T12:00:00\nEND_OBJECT = o\nq = 1.5 <m>\nEND",
-    "s = \"multi\nline\"\nn = NULL\nEnd",
-    "/* header */\nx = {a, b}\nptr = ^y\nEND",
-    "a = \"café 中\"\nb = 2\nEND",          # valid non-ASCII before END
-]
+def _labels():
+    import datetime as dt
+    G, O, Q = impl.PVLGroup, impl.PVLObject, impl.Quantity
+    utc = dt.timezone.utc
+    return [
+        ("a = 1\nEND", [("a", 1)]),
+        ("a = 1\nGROUP = g\n  b = 'x y'\nEND_GROUP\nEND", [("a", 1), ("g", G([("b", "x y")]))]),
+        ("OBJECT = o\n  k = (1, 2, 3)\n  t = 2001-01-01T12:00:00\nEND_OBJECT = o\nq = 1.5 <m>\nEND",
+         [("o", O([("k", [1, 2, 3]), ("t", dt.datetime(2001, 1, 1, 12, 0, tzinfo=utc))])), ("q", Q(1.5, "m"))]),
+        ("s = \"multi\nline\"\nn = NULL\nEnd", [("s", "multi line"), ("n", None)]),
+        ("/* header */\nx = {a, b}\nptr = ^y\nEND", [("x", frozenset(["a", "b"])), ("ptr", "^y")]),
+        ("a = \"caf\u00e9 \u4e2d\"\nb = 2\nEND", [("a", "caf\u00e9 \u4e2d"), ("b", 2)]),
+        # a line that reads END without being the End Statement
+        ("s = \"first\nEND\nlast\"\n/* not the\nEND\n*/\nn = 1\nEND", [("s", "first END last"), ("n", 1)]),
+        # CR-LF line ends, dash continuation outside and inside quotes
+        ("a = 12-\r\n34\r\nb = abc-\r\n   def\r\nc = \"x-\r\n  y\"\r\nEND", [("a", 1234), ("b", "abcdef"), ("c", "xy")]),
+        ("a = 1\r\nGROUP = g\r\n  b = 2\r\nEND_GROUP\r\nEND", [("a", 1), ("g", G([("b", 2)]))]),
+    ]
+
+
+LABELS = [t for t, _ in _labels()]
+
 SEPS = ["\n", "\r\n", " ", ";", "\x00", "\n\n", ";\n"]
 CHUNKS = [1, 2, 7, 64, 8192]
 
@@ -135,7 +149,8 @@ def entries(data, tmpdir, chunk):
 
 def check_load(label, sep, tailname, tail, chunk, tmpdir, acc):
     import pvl
-    want = T.loose(pvl.loads(label))
+    items = dict(_labels())[label]
+    want = T.loose(impl.PVLModule(items))       # fixed by the generator, not by any entry point
     data = label.encode("utf-8") + sep.encode("utf-8") + tail
     for name, thunk in entries(data, tmpdir, chunk):
         if name in ("str-path", "Path", "file-url", "BytesIO", "bytes", "str", "StringIO") and chunk != CHUNKS[0]:
